@@ -1,0 +1,178 @@
+//! Verification seams used by the external model-checking harness.
+//!
+//! This crate is only linked when the `verif` cargo feature of `utils`, `chunk_cache`,
+//! `cas_client` or `data` is enabled.  Every function is inert unless a [`Handler`] has been
+//! installed *and* that handler reports the calling thread as controlled.
+
+use std::any::Any;
+use std::fmt;
+use std::future::Future;
+use std::panic::{catch_unwind, AssertUnwindSafe};
+use std::pin::Pin;
+use std::sync::{Arc, Mutex, OnceLock};
+use std::task::{Context, Poll, Waker};
+
+pub type BoxedTask = Pin<Box<dyn Future<Output = ()> + Send + 'static>>;
+
+/// Implemented by the harness.
+pub trait Handler: Send + Sync + 'static {
+    /// Is the calling thread driven by the harness?
+    fn controlled(&self) -> bool;
+    /// A schedule point: the calling thread may be suspended here.
+    fn point(&self, label: &'static str);
+    /// An environment choice in `0..n` (`n >= 1`).
+    fn choose(&self, label: &'static str, n: usize) -> usize;
+    /// Run `task` to completion as a new logical thread of the harness.
+    fn spawn(&self, task: BoxedTask);
+}
+
+static HANDLER: OnceLock<Box<dyn Handler>> = OnceLock::new();
+
+/// Installs the process-wide handler (first call wins).
+pub fn install(h: Box<dyn Handler>) -> bool {
+    HANDLER.set(h).is_ok()
+}
+
+#[inline]
+pub fn controlled() -> bool {
+    match HANDLER.get() {
+        Some(h) => h.controlled(),
+        None => false,
+    }
+}
+
+#[inline]
+pub fn point(label: &'static str) {
+    if let Some(h) = HANDLER.get() {
+        if h.controlled() {
+            h.point(label);
+        }
+    }
+}
+
+/// Returns 0 when not controlled.
+#[inline]
+pub fn choose(label: &'static str, n: usize) -> usize {
+    if n <= 1 {
+        return 0;
+    }
+    if let Some(h) = HANDLER.get() {
+        if h.controlled() {
+            let c = h.choose(label, n);
+            assert!(c < n, "verif_hooks::choose: handler returned {c} of {n}");
+            return c;
+        }
+    }
+    0
+}
+
+/// Error of a spawned task that panicked (mirrors what a tokio `JoinError` reports).
+#[derive(Debug, Clone)]
+pub struct JoinError(pub String);
+
+impl fmt::Display for JoinError {
+    fn fmt(&self, f: &mut fmt::Formatter<'_>) -> fmt::Result {
+        write!(f, "task panicked: {}", self.0)
+    }
+}
+impl std::error::Error for JoinError {}
+
+struct Slot<T> {
+    value: Option<Result<T, JoinError>>,
+    waker: Option<Waker>,
+}
+
+/// Future resolving to the outcome of a task started with [`spawn`].
+pub struct JoinFuture<T> {
+    slot: Arc<Mutex<Slot<T>>>,
+}
+
+impl<T> Future for JoinFuture<T> {
+    type Output = Result<T, JoinError>;
+    fn poll(self: Pin<&mut Self>, cx: &mut Context<'_>) -> Poll<Self::Output> {
+        let mut s = self.slot.lock().unwrap();
+        if let Some(v) = s.value.take() {
+            Poll::Ready(v)
+        } else {
+            s.waker = Some(cx.waker().clone());
+            Poll::Pending
+        }
+    }
+}
+
+fn panic_text(p: &Box<dyn Any + Send>) -> String {
+    p.downcast_ref::<String>()
+        .cloned()
+        .or_else(|| p.downcast_ref::<&str>().map(|s| s.to_string()))
+        .unwrap_or_else(|| "<non-string panic>".to_string())
+}
+
+/// Wrapper with tokio's task contract: the future is polled inside `catch_unwind`; on a panic
+/// the future is dropped (so its destructors run) and the join side observes an error.
+struct Guarded<F: Future> {
+    fut: Option<Pin<Box<F>>>,
+    slot: Arc<Mutex<Slot<F::Output>>>,
+}
+
+impl<F: Future> Guarded<F> {
+    fn deliver(&self, v: Result<F::Output, JoinError>) {
+        let w = {
+            let mut s = self.slot.lock().unwrap();
+            s.value = Some(v);
+            s.waker.take()
+        };
+        if let Some(w) = w {
+            w.wake();
+        }
+    }
+}
+
+impl<F: Future> Future for Guarded<F> {
+    type Output = ();
+    fn poll(mut self: Pin<&mut Self>, cx: &mut Context<'_>) -> Poll<()> {
+        let this = &mut *self;
+        let Some(fut) = this.fut.as_mut() else {
+            return Poll::Ready(());
+        };
+        match catch_unwind(AssertUnwindSafe(|| fut.as_mut().poll(cx))) {
+            Ok(Poll::Pending) => Poll::Pending,
+            Ok(Poll::Ready(v)) => {
+                this.fut = None;
+                this.deliver(Ok(v));
+                Poll::Ready(())
+            },
+            Err(p) => {
+                let msg = panic_text(&p);
+                // drop the future; a panic inside a destructor is swallowed like tokio does
+                let f = this.fut.take();
+                let _ = catch_unwind(AssertUnwindSafe(move || drop(f)));
+                this.deliver(Err(JoinError(msg)));
+                Poll::Ready(())
+            },
+        }
+    }
+}
+
+impl<F: Future> Unpin for Guarded<F> {}
+
+/// Spawns `fut` as a new logical thread of the harness.  Must only be called when
+/// [`controlled`] is true.
+pub fn spawn<F>(fut: F) -> JoinFuture<F::Output>
+where
+    F: Future + Send + 'static,
+    F::Output: Send + 'static,
+{
+    let slot = Arc::new(Mutex::new(Slot {
+        value: None,
+        waker: None,
+    }));
+    let task = Guarded {
+        fut: Some(Box::pin(fut)),
+        slot: slot.clone(),
+    };
+    HANDLER
+        .get()
+        .expect("verif_hooks::spawn without a handler")
+        .spawn(Box::pin(task));
+    JoinFuture { slot }
+}
